@@ -6,6 +6,7 @@ package main
 // field values, interleaved readers, and a few long inputs.
 
 import (
+	"runtime/debug"
 	"bytes"
 	"fmt"
 	"io"
@@ -412,17 +413,29 @@ func alignExtras(c *Ctx, prop string) {
 		}
 	}
 	// (5) two large Local calls in one process (tables of more than 2^20 cells), oracle only
-	for round := 0; round < 2; round++ {
-		pa, pb := c.bytesFrom([]byte(protAlpha), 1040), c.bytesFrom([]byte(protAlpha), 1040)
-		if round == 0 {
-			copy(pb[300:], pa[200:900]) // a long high-scoring local alignment first
+	// The library calls run back to back with the garbage collector held off, so that whatever the first call left
+	// behind (a pooled table, a cached profile) is still there for the second; the reference runs afterwards.
+	{
+		var pas, pbs [2][]byte
+		var sls [2]float64
+		for round := 0; round < 2; round++ {
+			pas[round], pbs[round] = c.bytesFrom([]byte(protAlpha), 1040), c.bytesFrom([]byte(protAlpha), 1040)
+			if round == 0 {
+				copy(pbs[round][300:], pas[round][200:900]) // a long high-scoring local alignment first
+			}
 		}
-		_, _, _, sl := align.Local(pa, pb, align.BLOSUM62)
-		oracle := ""
-		if opt := gotoh(align.BLOSUM62, pa, pb, true); sl != opt {
-			oracle = fmt.Sprintf("Local on 1040x1040 (call %d in this process) returns %v, optimum %v", round+1, sl, opt)
+		oldGC := debug.SetGCPercent(-1)
+		for round := 0; round < 2; round++ {
+			_, _, _, sls[round] = align.Local(pas[round], pbs[round], align.BLOSUM62)
 		}
-		c.add(Case{Kind: "large-local", Nontrivial: true, Oracle: oracle, Note: fmt.Sprintf("align.Local BLOSUM62 1040x1040, call %d", round+1)})
+		debug.SetGCPercent(oldGC)
+		for round := 0; round < 2; round++ {
+			oracle := ""
+			if opt := gotoh(align.BLOSUM62, pas[round], pbs[round], true); sls[round] != opt {
+				oracle = fmt.Sprintf("Local on 1040x1040 (call %d in this process) returns %v, optimum %v", round+1, sls[round], opt)
+			}
+			c.add(Case{Kind: "large-local", Nontrivial: true, Oracle: oracle, Note: fmt.Sprintf("align.Local BLOSUM62 1040x1040, call %d", round+1)})
+		}
 	}
 }
 
